@@ -210,12 +210,93 @@ Proof.
     apply andb_true_iff. split; apply negb_true_iff, Qeqb_false_iff; [lra|rewrite Hn; lra].
 Qed.
 
+(* the same first pass when the number of values is taken with len() afterwards: state (pending raise, all_nul) *)
+Definition gs2_step {A} (raised : A) (st : option A * bool) (v : Q) : option A * bool :=
+  let '(ret, all_nul) := st in
+  match ret with
+  | Some _ => st
+  | None => if Qltb v 0 then (Some raised, all_nul)
+            else if all_nul && Qltb 0 v then (ret, false) else (ret, all_nul)
+  end.
+Definition gini_canon2 (l : list Q) : option Q :=
+  let '(ret, all_nul) := fold_left (gs2_step (@None Q)) l (None, true) in
+  match ret with
+  | Some r => r
+  | None => if all_nul then Some 0
+            else Some ((Qnat (length l) + 1 - (2 * fold_left (gc_step (Qnat (length l))) (py_enumerate (isort Qleb l)) 0) / Qsum l)
+                       / Qnat (length l))
+  end.
+Definition gini_safe_canon2 (l : list Q) : bool :=
+  let '(ret, all_nul) := fold_left (gs2_step true) l (None, true) in
+  match ret with
+  | Some r => r
+  | None => if all_nul then true else (negb (Qeqb (Qsum l) 0) && negb (Qeqb (Qnat (length l)) 0))%bool
+  end.
+Global Hint Unfold gs2_step gini_canon2 gini_safe_canon2 : pycanon.
+
+Lemma gs2_stuck {A} (rz : A) l : forall x a, fold_left (gs2_step rz) l (Some x, a) = (Some x, a).
+Proof. induction l as [|v l IH]; intros x a; simpl; [reflexivity|apply IH]. Qed.
+Lemma gs2_step_None {A} (rz : A) a v : gs2_step rz (None, a) v =
+  if Qltb v 0 then (Some rz, a) else if (a && Qltb 0 v)%bool then (None, false) else (None, a).
+Proof. reflexivity. Qed.
+Lemma gs2_scan {A} (rz : A) l : forall a,
+  let r := fold_left (gs2_step rz) l (None, a) in
+  (existsb (fun v => Qltb v 0) l = true -> fst r = Some rz) /\
+  (existsb (fun v => Qltb v 0) l = false ->
+     fst r = None /\ snd r = (a && forallb (fun v => negb (Qltb 0 v)) l)%bool).
+Proof.
+  induction l as [|v l IH]; intros a; cbn [fold_left existsb forallb].
+  - cbv zeta. cbn [fst snd]. split; [discriminate|]. intros _. rewrite andb_true_r. split; reflexivity.
+  - rewrite gs2_step_None. destruct (Qltb v 0) eqn:E; cbn [orb].
+    + rewrite gs2_stuck. cbv zeta. cbn [fst snd]. split; [reflexivity|discriminate].
+    + destruct (a && Qltb 0 v)%bool eqn:E2.
+      * apply andb_true_iff in E2. destruct E2 as [-> E2]. rewrite E2. cbn [negb andb].
+        destruct (IH false) as [H1 H2]. cbv zeta in *. split; [exact H1|]. intro Hn.
+        destruct (H2 Hn) as [Ha Hb]. split; [exact Ha|rewrite Hb; reflexivity].
+      * destruct (IH a) as [H1 H2]. cbv zeta in *. split; [exact H1|]. intro Hn.
+        destruct (H2 Hn) as [Ha Hb]. split; [exact Ha|].
+        rewrite Hb. destruct a; cbn [andb] in *; [rewrite E2; reflexivity|reflexivity].
+Qed.
+
+Lemma gini_canonical2 l : opt_rel Qeq (gini_canon2 l) (Analysis.gini_coefficient l).
+Proof.
+  unfold gini_canon2, Analysis.gini_coefficient.
+  pose proof (gs2_scan (@None Q) l true) as [H1 H2]. cbv zeta in H1, H2.
+  destruct (fold_left (gs2_step None) l (None, true)) as [ret an]. cbn [fst snd] in H1, H2.
+  destruct (existsb (fun v => Qltb v 0) l).
+  - rewrite (H1 eq_refl). exact I.
+  - destruct (H2 eq_refl) as [-> ->]. cbn [andb].
+    destruct (forallb (fun v => negb (Qltb 0 v)) l); cbn [opt_rel]; [reflexivity|].
+    rewrite Qred_correct. unfold py_enumerate.
+    rewrite (gc_cum (length l) (isort Qleb l) 0 0) by (rewrite isort_length; lia).
+    rewrite Nat.sub_0_r. apply Qdiv_comp; [|reflexivity].
+    apply Qplus_comp; [reflexivity|]. apply Qopp_comp. apply Qdiv_comp; [ring|reflexivity].
+Qed.
+
+Lemma gini_safe_canonical2 l : gini_safe_canon2 l = true.
+Proof.
+  unfold gini_safe_canon2.
+  pose proof (gs2_scan true l true) as [H1 H2]. cbv zeta in H1, H2.
+  destruct (fold_left (gs2_step true) l (None, true)) as [ret an]. cbn [fst snd] in H1, H2.
+  destruct (existsb (fun v => Qltb v 0) l) eqn:En.
+  - rewrite (H1 eq_refl). reflexivity.
+  - destruct (H2 eq_refl) as [-> ->]. cbn [andb].
+    destruct (forallb (fun v => negb (Qltb 0 v)) l) eqn:Ef; [reflexivity|].
+    apply forallb_false_ex in Ef. destruct Ef as [v [Hv Hpos]]. apply negb_false_iff, Qltb_iff in Hpos.
+    assert (Hnn : forall w, In w l -> 0 <= w).
+    { intros w Hw. pose proof (existsb_false_all _ _ En w Hw) as Hw'. cbv beta in Hw'. apply Qltb_false_iff in Hw'. exact Hw'. }
+    assert (Hs : 0 < Qsum l) by (apply StatsP.Qsum_pos; [exact Hnn|exists v; split; assumption]).
+    assert (Hl : (0 < length l)%nat) by (destruct l; [contradiction|simpl; lia]).
+    pose proof (Qnat_pos (length l) Hl) as Hp.
+    apply andb_true_iff. split; apply negb_true_iff, Qeqb_false_iff; lra.
+Qed.
+
 (* ---------- the generated functions ---------- *)
 (* a stream of (value, multiplicity): the multiplicities are Python ints *)
 Lemma gen_mean_generator_ok : forall l : list (Q * nat), gen_mean_generator (stream l) == Analysis.mean_generator l.
 Proof.
   first [ py_gen
-        | solve [ py_open; py_unfold; rewrite <- mg_canonical; py_fold_rel ] ].
+        | timeout 60 solve [ py_open; py_unfold; rewrite <- mg_canonical; py_fold_rel ] ].
 Qed.
 
 (* ... which is the weighted mean  sum(v * mul) / sum(mul)  of Spec/Stats.v *)
@@ -225,7 +306,7 @@ Proof. intro l. rewrite gen_mean_generator_ok. apply StatsP.mean_generator_spec.
 Lemma gen_mean_generator_plain_ok : forall l : list Q, gen_mean_generator_plain l == Analysis.mean_plain l.
 Proof.
   first [ py_gen
-        | solve [ py_open; py_unfold; rewrite <- mg_canonical_plain; py_fold_rel ] ].
+        | timeout 60 solve [ py_open; py_unfold; rewrite <- mg_canonical_plain; py_fold_rel ] ].
 Qed.
 
 Lemma gen_mean_generator_plain_is_mean : forall l : list Q, gen_mean_generator_plain l == Stats.mean l.
@@ -234,15 +315,17 @@ Proof. intro l. rewrite gen_mean_generator_plain_ok. apply StatsP.mean_plain_spe
 (* gini_coefficient: None = ValueError (a negative value) *)
 Lemma gen_gini_coefficient_ok : forall l : list Q, opt_rel Qeq (gen_gini_coefficient l) (Analysis.gini_coefficient l).
 Proof.
-  intro l. eapply opt_Qeq_trans; [|apply gini_canonical].
-  first [ solve [ py_open; autounfold with pycanon; py_unfold; py_fold_rel ] ].
+  intro l.
+  first [ solve [ eapply opt_Qeq_trans; [|apply gini_canonical]; py_open; autounfold with pycanon; py_unfold; py_fold_rel ]
+        | timeout 60 solve [ eapply opt_Qeq_trans; [|apply gini_canonical2]; py_open; autounfold with pycanon; py_unfold; py_fold_rel ] ].
 Qed.
 
 (* and it never divides by zero: the all-zero (and the empty) vector is answered before the division *)
 Lemma gen_gini_coefficient_safe_ok : forall l : list Q, gen_gini_coefficient_safe l = true.
 Proof.
-  intro l. rewrite <- (gini_safe_canonical l).
-  first [ solve [ py_open; autounfold with pycanon; py_unfold; py_fold_rel ] ].
+  intro l.
+  first [ solve [ rewrite <- (gini_safe_canonical l); py_open; autounfold with pycanon; py_unfold; py_fold_rel ]
+        | timeout 60 solve [ rewrite <- (gini_safe_canonical2 l); py_open; autounfold with pycanon; py_unfold; py_fold_rel ] ].
 Qed.
 
 (* mean_generator never divides by zero: the counter n is at least 1 when it is divided by *)
@@ -339,7 +422,7 @@ Ltac py_model := unfold Analysis.avg_satisfaction, Analysis.avg_ballot_length, A
 
 (* a statistic without a compound loop: everything unfolded, loops normalised, conditions split *)
 Ltac py_stat :=
-  solve [ py_open; py_unfold; py_model; py_unfold; rewrite ?sat_total_map; py_loops; py_cases; cbn [opt_rel];
+  timeout 40 solve [ py_open; py_unfold; py_model; py_unfold; rewrite ?sat_total_map; py_loops; py_cases; cbn [opt_rel];
           first [ py_arith
                 | py_loops; py_cases; rewrite ?Qsum_map_filter; cbv beta; cbn [fst snd];
                   first [reflexivity | py_arith | py_sum_rel] ] ].
@@ -379,8 +462,10 @@ Lemma gen_gini_coefficient_of_satisfaction_ok : forall sc I P W inv,
               (Analysis.gini_of_satisfaction (sat_stream sc I P W) inv).
 Proof.
   first [ py_stat
-        | solve [ intros; unfold gen_gini_coefficient_of_satisfaction, Analysis.gini_of_satisfaction, Analysis.expandQ, sat_stream;
-                  py_unfold; rewrite fold_collect_repeat, flat_map_map; cbn [fst snd app];
+        | timeout 60 solve [ intros; unfold gen_gini_coefficient_of_satisfaction, Analysis.gini_of_satisfaction, Analysis.expandQ, sat_stream;
+                  py_unfold; first [ rewrite fold_collect_repeat | rewrite fold_collect ];
+                  rewrite flat_map_map; cbn [fst snd app];
+                  try (erewrite flat_map_ext by (intro; rewrite py_repeat_single; reflexivity));
                   match goal with |- context [gen_gini_coefficient ?L] =>
                     pose proof (gen_gini_coefficient_ok L) as Hg;
                     destruct (gen_gini_coefficient L), (Analysis.gini_coefficient L) end;
